@@ -463,7 +463,7 @@ def typed_local(e):
 class C03(Prop):
     id = "C03"
     title = "Compiled bytecode computes exactly what LPC semantics define"
-    lean_modules = ["NV.C03.Props", "NV.C03.Props2", "NV.C03.Props3", "NV.C03.Props4", "NV.C03.Props5", "NV.C03.Witness"]
+    lean_modules = ["NV.C03.Props", "NV.C03.Props2", "NV.C03.Props3", "NV.C03.Props4", "NV.C03.Props5", "NV.C03.Props6", "NV.C03.Witness"]
     theorems = []          # filled below
     witness_theorems = []
     consts = [("oldRangeBehavior", "NV_OLD_RANGE"), ("switchCaseSize", "SWITCH_CASE_SIZE"),
@@ -562,7 +562,8 @@ class C03(Prop):
             a, b = I(pick_int(rng)), I(pick_int(rng))
         else:
             a, b = pick_scalar(rng), pick_scalar(rng)
-            if rng.chance(1, 8):
+            if rng.chance(1, 8) and op not in ("eq", "ne"):
+                # == / != on arrays compare identity (all empty arrays are one shared object): outside the covered core
                 a, b = small_arr(rng), small_arr(rng)
         fns = self.spellings_bin(op, a, b, rng)
         return make_case(cid, fns, defines=["#define M_OP(x, y) ((x) %s (y))" % BINOPS[op]],
@@ -1228,8 +1229,28 @@ class C03(Prop):
             same = [[0, 1, 2]]
         return make_case(cid, fns, same=same, meta={"origin": "generated", "family": "mapalg", "keys": kname})
 
+    def fam_maptrace(self, rng, cid):
+        """unit-style: random histories of m[k] = v / map_delete / allocate_mapping / += / + on two real mapping_t tables
+        with integer keys; the harness dumps the bucket layout after every step and `nvdrive` reproduces it with the
+        hash-table model of HashMap.lean"""
+        pool = [16 * j + rng.below(16) for j in range(rng.choice([8, 20, 40, 90, 300]))]
+        pool += [-16 * j - 5 for j in range(12)] + [2 ** 32 + 16 * j for j in range(6)] + [2 ** 62, -2 ** 63, 2 ** 63 - 1, 0, 1, 15]
+        toks = []
+        if rng.chance(1, 3):
+            toks.append("%sn:%d" % (rng.choice("ab"), rng.choice([0, 1, 8, 9, 15, 16, 17, 100, 128])))
+        for _ in range(rng.choice([6, 12, 25, 60, 140])):
+            k = rng.weighted([("i", 12), ("d", 3), ("abs", 1), ("plus", 1)])
+            if k == "i":
+                toks.append("%si:%d:%d" % (rng.weighted([("a", 3), ("b", 2)]), rng.choice(pool), rng.range(1, 999)))
+            elif k == "d":
+                toks.append("%sd:%d" % (rng.choice("ab"), rng.choice(pool)))
+            else:
+                toks.append(k)
+        toks += ["plus", "abs", "plus"]
+        return E.Case(cid, ["maptrace " + " ".join(toks)], {"origin": "generated", "family": "maptrace"})
+
     FAMS = [("fam_binop", 9), ("fam_unop", 2), ("fam_incdec", 3), ("fam_index", 5), ("fam_range", 5), ("fam_lvalue", 6),
-            ("fam_switch", 6), ("fam_loop", 6), ("fam_assignop", 5), ("fam_literal", 2), ("fam_rewrite", 4), ("fam_macro", 3), ("fam_calls", 5), ("fam_mapalg", 7)]
+            ("fam_switch", 6), ("fam_loop", 6), ("fam_assignop", 5), ("fam_literal", 2), ("fam_rewrite", 4), ("fam_macro", 3), ("fam_calls", 5), ("fam_mapalg", 7), ("fam_maptrace", 5)]
 
     def generate(self, rng, n, tier):
         out = []
@@ -1321,6 +1342,9 @@ PROP.theorems = ["NV.C03." + t for t in (
     "extract_agrees_repaired", "extract_quirks_irrelevant", "extract_agrees_partial",
     "fixup_spec", "bsearch_good", "log2floor_spec", "switch_sorted_agrees", "good_unique",
     "for_eq_while", "loop_forms_agree",
+    "HT.grow_lookup", "HT.grow_wf", "HT.insert_lookup_same", "HT.insert_lookup_other", "HT.insert_wf",
+    "HT.delete_lookup_same", "HT.delete_lookup_other", "HT.delete_wf", "HT.insert_refines", "HT.merge_refines",
+    "HT.mapping_lookup_after_insert", "HT.empty_refines",
     "wrap_id", "wrap_range", "tdiv_range", "tmod_range", "idiv_eq", "imod_eq")]
 PROP.witness_theorems = ["NV.C03." + t for t in (
     "witness_num_opeq_real", "witness_addeq_num_str", "assignop_agrees_Full_false", "witness_buf_store_zero",
